@@ -9,13 +9,15 @@
  *     A<n>:<c>         sqfs_block_processor_append of n units of content class c:
  *                        z all zero | u unique bytes | s shared bytes (same for every `s` chunk of equal size)
  *     E                end_file        S  sync        F  finish
- * Output, one line per session:   <rc class per call, stopping after the first error>  fired=<call index|-1>
- *     rc class: ok | err
+ * Output, one line per session:   <rc class per call, stopping after the first error>  fired=<call index|-1> digest=<hex>
+ *     rc class: ok | err;  digest: FNV-1a over the bytes written to the output file and the inodes the block
+ *     processor produced (type, size, fragment location, block start, sparse count, block size words)
  * The fault (VF_CLASS / VF_K / …) is armed once per process: run one session per process when injecting.
  */
 #include "config.h"
 #include "sqfs/block_processor.h"
 #include "sqfs/block_writer.h"
+#include "sqfs/block.h"
 #include "sqfs/frag_table.h"
 #include "sqfs/compressor.h"
 #include "sqfs/inode.h"
@@ -40,6 +42,17 @@ extern void vf_arm(int on);
 #define BLKSZ (4 * UNIT)
 
 static unsigned long uniq_ctr;
+
+static unsigned long long fnv(unsigned long long h, const void *data, size_t n)
+{
+	const unsigned char *p = data;
+
+	while (n--) {
+		h ^= *p++;
+		h *= 1099511628211ULL;
+	}
+	return h;
+}
 
 static void fill(unsigned char *buf, size_t n, char cls)
 {
@@ -148,10 +161,42 @@ int main(int argc, char **argv)
 			if (ret != 0)
 				break;
 		}
-		printf(" fired=%d\n", fired_at);
-		fflush(stdout);
-
 		vf_arm(0);
+		{
+			unsigned long long h = 1469598103934665603ULL;
+			sqfs_u64 sz = file->get_size(file), off = 0;
+
+			while (off < sz) {
+				size_t n = (sz - off) > sizeof(buf) ? sizeof(buf) : (size_t)(sz - off);
+
+				if (file->read_at(file, off, buf, n))
+					break;
+				h = fnv(h, buf, n);
+				off += n;
+			}
+			for (i = 0; i < ninodes; ++i) {
+				sqfs_u64 fsz = 0, start = 0;
+				sqfs_u32 fidx = 0, foff = 0;
+
+				if (inodes[i] == NULL)
+					continue;
+				sqfs_inode_get_file_size(inodes[i], &fsz);
+				sqfs_inode_get_file_block_start(inodes[i], &start);
+				sqfs_inode_get_frag_location(inodes[i], &fidx, &foff);
+				h = fnv(h, &inodes[i]->base.type, sizeof(inodes[i]->base.type));
+				h = fnv(h, &fsz, sizeof(fsz));
+				h = fnv(h, &start, sizeof(start));
+				h = fnv(h, &fidx, sizeof(fidx));
+				h = fnv(h, &foff, sizeof(foff));
+				if (inodes[i]->base.type == SQFS_INODE_EXT_FILE)
+					h = fnv(h, &inodes[i]->data.file_ext.sparse, sizeof(inodes[i]->data.file_ext.sparse));
+				h = fnv(h, &inodes[i]->payload_bytes_used, sizeof(inodes[i]->payload_bytes_used));
+				h = fnv(h, inodes[i]->extra, inodes[i]->payload_bytes_used);
+			}
+			printf(" fired=%d digest=%llx\n", fired_at, h);
+			fflush(stdout);
+		}
+
 		sqfs_drop(proc);
 		for (i = 0; i < ninodes; ++i)
 			free(inodes[i]);
